@@ -301,6 +301,23 @@ func rulesC17(c *Ctx) {
 		})
 	}
 	c.Floor("R5", n5, 1)
+	// the heredoc body ends where the accumulated body has the terminator ("\n"+marker, built from the
+	// input) as a suffix: a suffix test on the whole accumulated value cannot miss a terminator that
+	// overlaps a partial match (an incremental matcher that resets on mismatch can)
+	{
+		var term *CallInfo
+		for _, g := range append([]*ssa.Function{f}, privateHelpersOf(f)...) {
+			for _, ci := range Calls(g) {
+				if ci.Static != nil && qualName(ci.Static) == "strings.HasSuffix" {
+					if _, isConst := constString(ci.Arg(1)); !isConst {
+						term = ci
+					}
+				}
+			}
+		}
+		c.Check(term != nil, "R5", "heredoc terminator found by a suffix test", f.Pos(), "strings.HasSuffix(body, \"\\n\"+marker) decides the end of the body",
+			"the tokeniser no longer tests the accumulated heredoc body for the terminator with strings.HasSuffix — cannot certify that a terminator preceded by a partial match (an empty last line, a line that is a prefix of the marker) is found")
+	}
 
 	// ---- R6 the escape flag covers one byte -------------------------------------------------------------
 	esc := abs.PhiNamed("isEscaped")
@@ -328,6 +345,153 @@ func rulesC17(c *Ctx) {
 		}
 		c.Check(bad == "" && n >= 3, "R6", "escape flag of varutil.ReadArguments", esc.Pos(), fmt.Sprintf("false on %d back edges, true only right after the backslash", n),
 			bad+" — the escape leaks onto a later byte (a continuation line's first quote, the next command's newline)")
+	}
+
+	// ---- R9 no input byte is dropped: between two Reads the byte just read was either put into an
+	// argument / the heredoc marker or body, or it was found equal to a constant (a syntax byte) ----
+	{
+		n9 := 0
+		for _, g := range append([]*ssa.Function{f}, privateHelpersOf(f)...) {
+			var reads []*ssa.Call
+			for _, ci := range Calls(g) {
+				if call, ok := ci.Instr.(*ssa.Call); ok && call.Call.IsInvoke() && call.Call.Method.Name() == "Read" && len(call.Call.Args) == 1 {
+					reads = append(reads, call)
+				}
+			}
+			isRead := map[ssa.Instruction]bool{}
+			for _, r := range reads {
+				isRead[r] = true
+			}
+			for _, R := range reads {
+				bufv := R.Call.Args[0]
+				var isD func(v ssa.Value, d int) bool
+				isD = func(v ssa.Value, d int) bool {
+					if v == nil || d > 6 {
+						return false
+					}
+					switch x := v.(type) {
+					case *ssa.UnOp:
+						if x.Op == token.MUL {
+							if ia, ok := x.X.(*ssa.IndexAddr); ok && (ia.X == bufv || resolve(ia.X) == resolve(bufv)) {
+								return true
+							}
+							// a local variable that holds the byte (ch)
+							if a, ok := x.X.(*ssa.Alloc); ok {
+								for _, rf := range *a.Referrers() {
+									if st, ok := rf.(*ssa.Store); ok && st.Addr == ssa.Value(a) && isD(st.Val, d+1) {
+										return true
+									}
+								}
+							}
+						}
+					case *ssa.Convert:
+						return x.X == bufv || isD(x.X, d+1)
+					case *ssa.ChangeType:
+						return isD(x.X, d+1)
+					case *ssa.Slice:
+						return x.X == bufv
+					case *ssa.Phi:
+						for _, e := range x.Edges {
+							if e != v && isD(e, d+1) {
+								return true
+							}
+						}
+					}
+					return v == bufv
+				}
+				isUse := func(in ssa.Instruction) bool {
+					if isRead[in] {
+						return false
+					}
+					switch x := in.(type) {
+					case *ssa.BinOp:
+						return x.Op == token.ADD && (isD(x.X, 0) || isD(x.Y, 0))
+					case *ssa.Call:
+						for _, a := range x.Call.Args {
+							if isD(a, 0) {
+								return true
+							}
+						}
+					case *ssa.Store:
+						if _, local := x.Addr.(*ssa.Alloc); !local && isD(x.Val, 0) {
+							return true
+						}
+					}
+					return false
+				}
+				n9++
+				type st struct {
+					b, pred *ssa.BasicBlock
+					acc     bool
+				}
+				seen := map[st]bool{}
+				bad := token.NoPos
+				var walk func(b *ssa.BasicBlock, from int, acc bool, pred *ssa.BasicBlock)
+				walk = func(b *ssa.BasicBlock, from int, acc bool, pred *ssa.BasicBlock) {
+					for i := from; i < len(b.Instrs); i++ {
+						in := b.Instrs[i]
+						if isRead[in] {
+							if !acc && bad == token.NoPos {
+								bad = in.Pos()
+							}
+							return
+						}
+						if _, isRet := in.(*ssa.Return); isRet {
+							return
+						}
+						if isUse(in) {
+							acc = true
+						}
+					}
+					var iff *ssa.If
+					if len(b.Instrs) > 0 {
+						iff, _ = b.Instrs[len(b.Instrs)-1].(*ssa.If)
+					}
+					// the condition as this path computed it: `a || b` evaluated as a value is a phi of
+					// constants and the last operand
+					var cond ssa.Value
+					if iff != nil {
+						cond = iff.Cond
+						if ph, isPhi := cond.(*ssa.Phi); isPhi && ph.Block() == b && pred != nil {
+							for pi, pb := range b.Preds {
+								if pb == pred && pi < len(ph.Edges) {
+									cond = ph.Edges[pi]
+								}
+							}
+						}
+					}
+					for si, sc := range b.Succs {
+						a2 := acc
+						if cb, isConst := constBool(cond); isConst && iff != nil && len(b.Succs) == 2 {
+							if cb != (si == 0) {
+								continue // not taken on this path
+							}
+						}
+						if iff != nil && len(b.Succs) == 2 {
+							if bo, ok := cond.(*ssa.BinOp); ok && (bo.Op == token.EQL || bo.Op == token.NEQ) {
+								_, cy := bo.Y.(*ssa.Const)
+								_, cx := bo.X.(*ssa.Const)
+								if (cy && isD(bo.X, 0)) || (cx && isD(bo.Y, 0)) {
+									if (bo.Op == token.EQL) == (si == 0) {
+										a2 = true
+									}
+								}
+							}
+						}
+						k := st{sc, b, a2}
+						if seen[k] {
+							continue
+						}
+						seen[k] = true
+						walk(sc, 0, a2, b)
+					}
+				}
+				walk(R.Block(), instrIndex(R)+1, false, nil)
+				c.Check(bad == token.NoPos, "R9", fmt.Sprintf("byte of Read #%d in %s is accounted for", n9, fname(g)), R.Pos(), "used in an argument / marker / body, or equal to a syntax constant, before the next Read",
+					"the next Read at "+c.pos(bad)+" is reachable with the byte neither kept nor recognised as a syntax byte — input bytes are dropped silently (words no longer come back byte for byte)")
+			}
+		}
+		c.Floor("R9", n9, 3)
 	}
 
 	// ---- R7 heredoc trimming --------------------------------------------------------------------------------
